@@ -177,6 +177,7 @@ def c05_programs(rng, tier) -> List[Item]:
     items += shared_constant_items(rng, sizes(tier, 90, 450))
     items += shared_argument_items(rng, sizes(tier, 30, 150))
     items += collections_api_items(rng, sizes(tier, 45, 180))
+    items += node_returning_items(rng, sizes(tier, 20, 60))
     items += interface_items(rng, sizes(tier, 12, 60))
     items += dataset_class_items(rng, sizes(tier, 30, 150))
     return items
@@ -336,6 +337,35 @@ def collections_api_items(rng, n) -> List[Item]:
         top = [lambda: shown, lambda: P.collection("list", [shown, root]), lambda: P.dataset([("c", shown)], cache=P.new_cache("nocache"))][i % 3]()
         for o in [{"A": 1}, {"A": "x", "B": 2}, {}, {"A": 1}]:
             P.evaluate(top, o, **({"mutate_result": True} if i % 2 and kind != "set" else {}))
+        items.append((P.to_json(), {}))
+    return items
+
+
+def node_returning_items(rng, n) -> List[Item]:
+    """user functions that RETURN a labrea node (a registry lookup yielding an Option, a body returning a Value): `apply`,
+    `>>`, dataset bodies, callbacks and lifted functions hand that object on as the value it is — only `bind` evaluates
+    what its function returns"""
+    items = []
+    for i in range(n):
+        P = Prog()
+        kind = i % 2
+        marker = "<node Option PATH_A>" if kind == 0 else "<node Value>"
+        nodespec = {"k": "option", "key": "PATH_A"} if kind == 0 else {"k": "value", "v": 7}
+        name = P.const_fn(f"reg{i}", marker, node=nodespec)
+        src = P.option("KIND", dflt=P.value("a"))
+        shape = (i // 2) % 5
+        if shape == 0:
+            root = P.apply(src, P.fnvalue(name))
+        elif shape == 1:
+            root = P.apply(src, P.fnvalue(name), via="rshift")
+        elif shape == 2:
+            root = P.dataset([("k", src)], fn_name=name, cache=P.new_cache("nocache"))
+        elif shape == 3:
+            root = P.dataset([("k", src)], callback=P.fnvalue(name))
+        else:
+            root = P.collection("list", [P.funapp(P.fnvalue(name), [src]), P.apply(P.apply(src, P.fnvalue(name)), P.fnvalue("pair", 0))])
+        for o in [{"PATH_A": "/data/a.csv", "KIND": "a"}, {}, {"PATH_A": "/other"}]:
+            P.evaluate(root, o)
         items.append((P.to_json(), {}))
     return items
 
@@ -979,7 +1009,12 @@ def interface_items(rng, n) -> List[Item]:
         impl = P.implement(mem, ["fast"] if i % 2 else ["fast", "quick"],
                            [("table", "fn", [("b", P.option("B", dflt=P.value(0)))]),
                             ("rows", "node", P.dataset([("a", P.option("A"))])),
-                            ("extra", "fn", [])] + ([("limit", "const", 5)] if i % 4 == 0 else []))
+                            ("extra", "fn", []),
+                            # (implementation members that choose by a dataset needing no option: defining the
+                            # implementation class runs nothing either)
+                            ("mode", "node", P.switch(lvl, [("x", P.value("impl-mode-x"))], P.value("impl-mode-d"))),
+                            ("pick", "fn", [("p", P.bind(lvl, [("x", P.value(10))], P.value(20)))])]
+                           + ([("limit", "const", 5)] if i % 4 == 0 else []))
         left = P.dataset([("t", mem["table"]), ("r", mem["rows"])])
         right = P.dataset([("t", mem["table"]), ("l", mem["limit"])])
         top = P.dataset([("x", left), ("y", right)])
@@ -998,6 +1033,31 @@ def interface_items(rng, n) -> List[Item]:
     return items
 
 
+def switched_off_repeat_items(rng, n) -> List[Item]:
+    """repeats of an evaluation with the library's switches spelled out in ways that leave them OFF — literal falsy
+    values, references resolving to falsy values, both spellings of the cache switch with the documented one falsy — are
+    served from the cache like any repeat"""
+    items = []
+    OFF = [{"CACHE": {"DISABLED": False, "DISABLE": True}}, {"CACHE": {"DISABLED": 0, "DISABLE": 1}}, {"CACHE": {"DISABLED": None, "DISABLE": "yes"}},
+           {"CACHE": {"DISABLED": "{DEBUG}"}}, {"CACHE": {"DISABLE": "{DEBUG}"}}, {"CACHE": {"DISABLED": "", "DISABLE": "{ON}"}},
+           {"EFFECTS": {"DISABLED": "{DEBUG}"}, "LOGGING": {"DISABLED": 0}}]
+    for i in range(n):
+        P = Prog()
+        shared = P.dataset([("a", P.option("A"))], effects=[P.fnvalue(P.free("eff1"))])
+        left = P.dataset([("s", shared), ("l", P.option("L", dflt=P.value(0)))])
+        right = P.dataset([("s", shared)])
+        root = P.dataset([("x", left), ("y", right)]) if i % 2 else shared
+        o = {"A": i % 3, "DEBUG": [False, 0, "", None][i % 4], "ON": True}
+        P.evaluate(root, o)
+        first = len(P.ops) - 1
+        repeats = []
+        for lab in OFF:
+            P.evaluate(root, sort_json(dict(o, LABREA=lab)))
+            repeats.append((first, len(P.ops) - 1, "switch_default"))
+        items.append((P.to_json(), {"repeats": repeats, "bodies": _dataset_bodies(P), "family": []}))
+    return items
+
+
 def c02_programs(rng, tier) -> List[Item]:
     items = corpus_items("C02")
     cfg = Cfg(raising=False, all_options=False)
@@ -1005,6 +1065,7 @@ def c02_programs(rng, tier) -> List[Item]:
     items += effect_family_items(rng, sizes(tier, 60, 600))
     items += minimal_backend_items(rng, sizes(tier, 44, 330))
     items += interface_items(rng, sizes(tier, 24, 120))
+    items += switched_off_repeat_items(rng, sizes(tier, 12, 48))
     return items
 
 
@@ -1179,6 +1240,44 @@ def coalesce_domain_items(rng, n) -> List[Item]:
     return items
 
 
+def section_inner_keys_items(rng, n) -> List[Item]:
+    """a cached node / a dataset that reads a section AND keys inside it (also string-prefix pairs: `PATH` / `PATH_OUT`,
+    `K1` / `K10`): keys() reports every one of them, in every process whatever its hash seed (these programs are re-run
+    under the other PYTHONHASHSEEDs), and the fingerprint lists them all"""
+    items = []
+    groups = [["S", "S.X"], ["S", "S.X", "S.U.V"], ["S.U", "S.U.V", "S.U.W"], ["PATH", "PATH_OUT"], ["K1", "K10", "K1.A"], ["T", "T.X", "T.Z", "A"],
+              ["WALK.DEPTH", "WALK.DEPTHS"]]
+    for i in range(n):
+        P = Prog()
+        keys = groups[i % len(groups)]
+        params = [(f"p{j}", P.option(k)) for j, k in enumerate(keys)]
+        if i % 2:
+            params.reverse()
+        shape = (i // len(groups)) % 3
+        if shape == 0:
+            root = P.dataset(params)
+        elif shape == 1:
+            root = P.cached(P.collection("list", [n_ for _, n_ in params]))
+        else:
+            root = P.dataset([("d", P.dataset(params[:1])), ("e", P.cached(P.collection("tuple", [n_ for _, n_ in params[1:]])))])
+        ke, expect = [], {}
+        for v in (1, 2):
+            o: Dict[str, Any] = {}
+            for k in sorted(keys, key=lambda z: -len(z)):
+                if ref_get(k, o)[0] != "found":
+                    _put(o, k, v if "." in k or not any(x.startswith(k + ".") for x in keys) else {"OTHER": v})
+            o["ZZ"] = v
+            P.raw_op(op="reset")
+            P.op("keys", root, sort_json(o))
+            P.op("evaluate", root, sort_json(o))
+            P.op("fingerprint", root, sort_json(o))
+            ke.append((len(P.ops) - 3, len(P.ops) - 2))
+            if all(ref_get(k, o)[0] == "found" for k in keys):
+                expect[str(len(P.ops) - 3)] = sorted(keys)
+        items.append((P.to_json(), {"ke": ke, "root": root, "hs": True, "expect_keys": expect}))
+    return items
+
+
 def c03_programs(rng, tier) -> List[Item]:
     items = corpus_items("C03")
     cfg = Cfg(raising=False, effects=True)
@@ -1189,6 +1288,7 @@ def c03_programs(rng, tier) -> List[Item]:
     items += function_slot_items(rng, sizes(tier, 24, 96))
     items += cached_dataset_class_items(rng, sizes(tier, 18, 90))
     items += coalesce_domain_items(rng, sizes(tier, 18, 72))
+    items += section_inner_keys_items(rng, sizes(tier, 21, 63))
     return items
 
 
@@ -1250,6 +1350,13 @@ def c03_phase2(items, impl, model, rng, tier) -> List[Item]:
 
 def c03_oracle(prog, meta, impl, model):
     out = []
+    for ki, want in meta.get("expect_keys", {}).items():
+        ki = int(ki)
+        if ki < len(impl):
+            K = keyset(impl[ki])
+            if K is None or sorted(K) != want:
+                out.append(("keys() is not exactly the set of present keys the node reads", ki,
+                            {"expected": want, "got": impl[ki].get("r"), "options": prog["ops"][ki]["o"]}))
     # phase 1: every reported key is present
     for ki, ei in meta.get("ke", []):
         if ki >= len(impl):
@@ -1413,7 +1520,41 @@ def c04_programs(rng, tier) -> List[Item]:
         items.append((P.to_json(), meta))
     items += namespace_items(rng, sizes(tier, 40, 300))
     items += index_literal_items(rng, sizes(tier, 40, 160))
+    items += helper_domain_items(rng, sizes(tier, 30, 90))
     return items
+
+
+def helper_domain_items(rng, n) -> List[Item]:
+    """`domain=F.one_of(...)` / `F.none_of(...)` (helpers of labrea.functions as domain predicates) over admissible items
+    and values of every JSON kind — lists and sections, which are not hashable, included: a present in-domain value (and
+    a default) is what the Option yields, an out-of-domain one is rejected as a domain violation"""
+    items = []
+    pools = [[1, "x", [2, 3], {"k": 1}, None], [[], {}, 0], ["a", "b"], [[1, [2]], {"a": {"b": []}}], [True, 2]]
+    for i in range(n):
+        P = Prog()
+        allowed = copy.deepcopy(pools[i % len(pools)])
+        neg = (i // len(pools)) % 2 == 1
+        fnv = fn("isin", allowed)
+        v = dict(fnv, lf="none_of" if neg else "one_of", lf_args=[enc_(a) for a in allowed]) if not neg else \
+            {"$": "comp", "v": [fnv, fn("not")], "lf": "none_of", "lf_args": [enc_(a) for a in allowed]}
+        dom = P._node("value", v=v)
+        d = [None, P.value(copy.deepcopy(allowed[0])), P.value("zz")][i % 3]
+        opt = P.option("A", dflt=d, dom=dom)
+        root = opt if i % 2 else P.dataset([("a", opt)], cache=P.new_cache("nocache"))
+        meta: Dict[str, Any] = {"c04": [], "helper_domain": []}
+        for val in allowed + ["zz", [9], {"q": 1}, 7]:
+            for o in ({"A": copy.deepcopy(val)}, {}):
+                P.evaluate(root, sort_json(o))
+                inside = any(_pyeq(val, a) for a in allowed)
+                meta["helper_domain"].append({"op": len(P.ops) - 1, "present": "A" in o, "value": val, "ok": inside != neg,
+                                              "dflt": None if d is None else P.node(d)["v"], "allowed": allowed, "neg": neg})
+        items.append((P.to_json(), meta))
+    return items
+
+
+def enc_(v):
+    from pylib import enc
+    return enc(v)
 
 
 def index_literal_items(rng, n) -> List[Item]:
@@ -1517,6 +1658,26 @@ def c04_oracle(prog, meta, impl, model):
             g0, g1 = ref_get(other, c["base"]), ref_get(other, new)
             if g0[0] == "found" and (g1[0] != "found" or dumps(g0[1]) != dumps(g1[1])):
                 out.append(("Option.set lost or changed another key", c["op"], {"key": c["key"], "other": other, "new": new}))
+    for c in meta.get("helper_domain", []):
+        a = impl[c["op"]] if c["op"] < len(impl) else None
+        if not isinstance(a, dict) or "r" not in a:
+            continue
+        if c["present"]:
+            val, ok = c["value"], c["ok"]
+        elif c["dflt"] is not None:
+            val = c["dflt"]
+            ok = any(_pyeq(val, x) for x in c["allowed"]) != c["neg"]
+        else:
+            continue
+        got = a["r"][1] if is_ok(a) else None
+        if isinstance(got, dict) and got.get("$") == "app":
+            got = dict(got.get("k", [])).get("a")
+        if ok and not (is_ok(a) and dumps(got) == dumps(val)):
+            out.append(("a value inside the declared domain (a labrea.functions helper) was not what the Option yields", c["op"],
+                        {"value": val, "allowed": c["allowed"], "negated": c["neg"], "got": a["r"]}))
+        if not ok and not (is_err(a) and a["r"][1][-1][0] == "ValueError"):
+            out.append(("a value outside the declared domain was not rejected as a domain violation", c["op"],
+                        {"value": val, "allowed": c["allowed"], "negated": c["neg"], "got": a["r"]}))
     for c in meta.get("c04", []):
         i = c["op"]
         if i >= len(impl) or "r" not in impl[i]:
@@ -2583,6 +2744,44 @@ def agreement_shapes_items(rng, n) -> List[Item]:
     return items
 
 
+def shared_upstream_items(rng, n) -> List[Item]:
+    """ONE upstream dataset reached several times below one root under DIFFERENT effective options (two `with_options`
+    derivatives, wrapper nodes, a Map over its dispatch key), its overloads reading different keys: explain / keys /
+    validate of the root follow every one of the routes"""
+    items = []
+    for i in range(n):
+        P = Prog()
+        csv = P.dataset([("p", P.option("CSV.PATH"))])
+        db = P.dataset([("u", P.option("DB.URL"))])
+        up = P.dataset([("a", P.option("A", dflt=P.value(0)))], dispatch=P.option("SRC", bare=True), table=[("csv", csv), ("db", db)],
+                       abstract=(i % 3 == 0))
+        shape = i % 4
+        if shape == 0:
+            v1, v2 = P.derive(up, {"SRC": "csv"}), P.derive(up, {"SRC": "db"})
+            root = P.dataset([("x", v1), ("y", v2)])
+            P.node(root)["lazy"] = True       # (defined after the derivations it depends on)
+        elif shape == 1:
+            root = P.dataset([("x", P.with_options(up, {"SRC": "csv"})), ("y", P.with_options(up, {"SRC": "db"})), ("z", up)])
+        elif shape == 2:
+            root = P.dataset([("m", P.apply(P.map(up, [("SRC", P.value(["csv", "db"]))]), P.fnvalue("py:list")))])
+        else:
+            mid = P.dataset([("u", up)])
+            root = P.dataset([("x", P.with_options(mid, {"SRC": "db"}, force=False)), ("y", P.with_options(mid, {"SRC": "csv"}))])
+        full = {"CSV": {"PATH": "p"}, "DB": {"URL": "u"}, "SRC": "csv", "A": 1}
+        subs: List[Dict[str, Any]] = [{}, {"CSV": {"PATH": "p"}}, {"DB": {"URL": "u"}}, {"CSV": {"PATH": "p"}, "DB": {"URL": "u"}}, {"SRC": "db"},
+                                      {"SRC": "db", "DB": {"URL": "u"}}, full]
+        recs, agree = [], []
+        for o in subs:
+            P.raw_op(op="reset")
+            b = len(P.ops)
+            for op in ("validate", "keys", "explain", "evaluate", "validate", "keys", "evaluate"):
+                P.op(op, root, sort_json(o))
+            recs.append({"x": b + 2, "k": b + 1, "v": b})
+            agree.append({"v": b, "k": b + 1, "x": b + 2, "e": b + 3, "wv": b + 4, "wk": b + 5, "we": b + 6})
+        items.append((P.to_json(), {"explain": recs, "agree": agree, "root": root}))
+    return items
+
+
 def c10_programs(rng, tier) -> List[Item]:
     items = corpus_items("C10")
     items += dataset_default_items(rng, sizes(tier, 30, 200))
@@ -2596,6 +2795,7 @@ def c10_programs(rng, tier) -> List[Item]:
     items += dataset_class_items(rng, sizes(tier, 30, 150))
     items += container_reference_items(rng, sizes(tier, 32, 96))
     items += agreement_shapes_items(rng, sizes(tier, 32, 128))
+    items += shared_upstream_items(rng, sizes(tier, 16, 64))
     return items
 
 
@@ -2813,6 +3013,7 @@ def c11_programs(rng, tier) -> List[Item]:
     items += namespace_explain_items(rng, sizes(tier, 20, 150))
     items += dataset_class_items(rng, sizes(tier, 40, 200))
     items += agreement_shapes_items(rng, sizes(tier, 32, 128))
+    items += shared_upstream_items(rng, sizes(tier, 16, 64))
     return items
 
 
@@ -3332,6 +3533,18 @@ def spelled_switch_items(rng, n) -> List[Item]:
             else:
                 offs.append({"base": base, "op": len(P.ops) - 1, "spelling": spelling, "switch": path})
             recs.append(rec)
+        # both spellings of the cache switch at once: the documented one (`DISABLED`) decides whenever it is present
+        for v1, v2 in [(False, True), (True, False), (0, 1), (None, True), ("", "yes"), (False, "{DEBUG}")]:
+            o2 = copy.deepcopy(o)
+            _put(o2, "LABREA.CACHE.DISABLED", v1)
+            _put(o2, "LABREA.CACHE.DISABLE", v2)
+            if v2 == "{DEBUG}":
+                o2["DEBUG"] = True
+            P.evaluate(root, sort_json(o2))
+            rec = {"base": base, "op": len(P.ops) - 1, "cache": "DISABLED" if v1 else "on", "effects": "on", "log": "on"}
+            recs.append(rec)
+            if not v1:
+                offs.append({"base": base, "op": len(P.ops) - 1, "spelling": [v1, v2], "switch": "CACHE.DISABLED + CACHE.DISABLE"})
         items.append((P.to_json(), {"sw": recs, "bodies": _dataset_bodies(P), "sw_off": offs}))
     return items
 
